@@ -418,7 +418,13 @@ impl<CS: BbsCiphersuite> PoKSignature<BBSplus<CS>> {
         let api_id = CS::API_ID_BLIND;
 
         let U = proof.m_cap.len();
-        let M = disclosed_indexes.len() + disclosed_commitment_indexes.len() + U - 1 - L;
+        // M = (number of all signed messages) - 1 - L; a larger L than the proof can carry is an error
+        let M = (disclosed_indexes.len() + disclosed_commitment_indexes.len() + U)
+            .checked_sub(1)
+            .and_then(|n| n.checked_sub(L))
+            .ok_or_else(|| {
+                Error::PoKSVerificationError("L does not match the number of messages in the proof".to_owned())
+            })?;
 
         let (message_scalars, generators) = prepare_parameters::<CS>(
             Some(disclosed_messages),
@@ -429,11 +435,14 @@ impl<CS: BbsCiphersuite> PoKSignature<BBSplus<CS>> {
             Some(api_id)
         )?;
 
-        let indexes = disclosed_indexes
-            .iter()
-            .copied()
-            .chain(disclosed_commitment_indexes.iter().map(|j| j + L + 1))
-            .collect::<Vec<_>>();
+        let mut indexes = disclosed_indexes.clone();
+        for j in disclosed_commitment_indexes.iter() {
+            let idx = j
+                .checked_add(L)
+                .and_then(|v| v.checked_add(1))
+                .ok_or_else(|| Error::PoKSVerificationError("Invalid disclosed indexes".to_owned()))?;
+            indexes.push(idx);
+        }
 
         core_proof_verify::<CS>(
             pk,
